@@ -2,7 +2,8 @@
 //
 // Line protocol (one result line per op line, flushed immediately so that a sanitizer abort identifies its op):
 //   run  <ep> <seed> <p0> <p1> <p2> <p3> <hex>   one execution of entry point <ep>
-//   run2 <ep> <seed> <p0> <p1> <p2> <p3> <hex>   the same twice: once on a fresh handle, once on a REUSED handle (a lzma_stream
+//   run2 <ep> <seed> <p0> <p1> <p2> <p3> <hex>   the same three times: fresh handle with junk 0xA5 in fresh heap memory and output
+//                                                buffers, fresh handle with junk 0x00, and on a REUSED handle (a lzma_stream
 //                                                that first ran 1-2 seeded other/same coders on the same bytes, ended in
 //                                                success / error / abandoned mid-stream, and is re-initialised without
 //                                                lzma_end), with different junk in fresh heap memory and output buffers;
@@ -357,25 +358,34 @@ int main(void)
 			c04_res r1, r2;
 			c04_junk = 0xA5;
 			exec_once(&op, &r1);
-			if (!strcmp(cmd, "run2") && r1.bad[0] == '\0') {
-				c04_junk = 0x00;
-				exec_reused(&op, &r2);
-				if (r2.bad[0] != '\0') {
-					r1 = r2;
-				} else if (r1.timing) {
-					// threaded decoder: the number of calls and the moment an error surfaces depend on thread timing;
-					// only a successful decode must give the same bytes
-					if (r1.ret == LZMA_STREAM_END && r2.ret == LZMA_STREAM_END && !r1.capped && !r2.capped
-							&& (r1.out_total != r2.out_total || r1.crc != r2.crc))
-						c04_bad(&r1, "fresh-vs-reused-handle-or-junk-results-differ(mt):out=%" PRIu64 "/%" PRIu64 ",crc=%" PRIu32 "/%" PRIu32,
-								r1.out_total, r2.out_total, r1.crc, r2.crc);
-				} else if (r1.init_ret != r2.init_ret || r1.ret != r2.ret || r1.in_total != r2.in_total
-						|| r1.out_total != r2.out_total || r1.crc != r2.crc || r1.calls != r2.calls
-						|| r1.aux != r2.aux) {
-					c04_bad(&r1, "fresh-vs-reused-handle-or-junk-results-differ:ret=%d/%d,in=%" PRIu64 "/%" PRIu64 ",out=%" PRIu64
-							"/%" PRIu64 ",crc=%" PRIu32 "/%" PRIu32 ",calls=%" PRIu64 "/%" PRIu64,
-							r1.ret, r2.ret, r1.in_total, r2.in_total, r1.out_total, r2.out_total, r1.crc, r2.crc,
-							r1.calls, r2.calls);
+			if (!strcmp(cmd, "run2")) {
+				// (a) same op, fresh handle, the other junk fill: nothing observable may depend on never-written memory;
+				// (b) same op on a reused handle.
+				for (int pass = 0; pass < 2 && r1.bad[0] == '\0'; ++pass) {
+					const char *const what2 = pass == 0 ? "result-depends-on-junk-fill(uninitialised-memory)"
+							: "fresh-vs-reused-handle-results-differ";
+					c04_junk = 0x00;
+					if (pass == 0)
+						exec_once(&op, &r2);
+					else
+						exec_reused(&op, &r2);
+					if (r2.bad[0] != '\0') {
+						r1 = r2;
+					} else if (r1.timing) {
+						// threaded decoder: the number of calls and the moment an error surfaces depend on thread timing;
+						// only a successful decode must give the same bytes
+						if (r1.ret == LZMA_STREAM_END && r2.ret == LZMA_STREAM_END && !r1.capped && !r2.capped
+								&& (r1.out_total != r2.out_total || r1.crc != r2.crc))
+							c04_bad(&r1, "%s(mt):out=%" PRIu64 "/%" PRIu64 ",crc=%" PRIu32 "/%" PRIu32, what2,
+									r1.out_total, r2.out_total, r1.crc, r2.crc);
+					} else if (r1.init_ret != r2.init_ret || r1.ret != r2.ret || r1.in_total != r2.in_total
+							|| r1.out_total != r2.out_total || r1.crc != r2.crc || r1.calls != r2.calls
+							|| r1.aux != r2.aux) {
+						c04_bad(&r1, "%s:ret=%d/%d,in=%" PRIu64 "/%" PRIu64 ",out=%" PRIu64
+								"/%" PRIu64 ",crc=%" PRIu32 "/%" PRIu32 ",calls=%" PRIu64 "/%" PRIu64, what2,
+								r1.ret, r2.ret, r1.in_total, r2.in_total, r1.out_total, r2.out_total, r1.crc, r2.crc,
+								r1.calls, r2.calls);
+					}
 				}
 			}
 			unwatch();
